@@ -10,7 +10,7 @@ CONSTANTS
   DomOffset = 0
   Start = 1
   Steps = {1, 2, 3, 5}
-  MaxNow = 16
+  MaxNow = 14
   WithRead = TRUE
   GenDepth = 0
   ReqWeight = 1
